@@ -308,6 +308,8 @@ def run_parent(ch, solvers, op, plan, run_worker, cache, parent=None) -> dict:
     if res["outcome"] == "returned":
         try:
             res["stats"] = parent.get_statistics()
+            # asking is not an event of the run: the answer to a repeated query must not move
+            res["stats_again"] = [parent.get_statistics() for _ in range(2)]
         except Exception as e:
             res["stats_error"] = e
     res["now"] = world.now
@@ -402,6 +404,13 @@ def judge_fault_free(res, op, model, ref, streams, solvers, viol, ctx, out, use_
             msg = ctx + f"aggregated statistics differ from the sum/max of the workers' final statistics (got, expected): {bad} (delivery order {res['delivery_order']})"
             viol("C11", "statistics-aggregation", msg)
             viol("C17", "mp-statistics-aggregation", msg)
+        for j, again in enumerate(res.get("stats_again") or []):
+            if {k: again[k] for k in STAT_KEYS} != exp:
+                bad = {k: (again[k], exp[k]) for k in STAT_KEYS if again[k] != exp[k]}
+                msg = ctx + f"query #{j + 2} of get_statistics() after the same run differs from the sum/max of the workers' final statistics (got, expected): {bad}"
+                viol("C11", "statistics-query-not-idempotent", msg)
+                viol("C17", "mp-statistics-query-not-idempotent", msg)
+                break
         # per worker conservation laws (C17)
         for st, solver in zip(streams, solvers):
             L = st.listener
